@@ -84,6 +84,39 @@ func c09(c *Ctx) {
 	}
 	if f := c.mustFn(r, storeT+"readValueAt"); f != nil {
 		c09ValueDigest(c, r, f)
+		// the value cache: entries are keyed by the full encoded offset (value-log id + position: two value logs hold
+		// different values at the same position) and hold a private copy (callers pass scratch buffers they refill)
+		rc := "C09.1/value-cache"
+		get := callTo("embedded/cache.(*Cache).Get@vLogCache")
+		put := callTo("embedded/cache.(*Cache).Put@vLogCache")
+		gs, ps := sites(f, get), sites(f, put)
+		if len(gs) == 0 || len(ps) == 0 {
+			c.undecided(rc, fnName(f)+":sites", "value cache Get/Put not found")
+		}
+		for i, in := range append(append([]ssa.Instruction{}, gs...), ps...) {
+			a := callOf(in).Args
+			k := desc(a[1])
+			if mi, ok := a[1].(*ssa.MakeInterface); ok {
+				k = desc(mi.X)
+			}
+			c.check(k == "param:off", rc, fmt.Sprintf("%s:key-is-encoded-offset#%d", fnName(f), i), c.pos(in.Pos()), "cache key is the encoded offset (value-log id included)", "the value cache is addressed with "+k+" instead of the encoded offset: values at the same position of different value logs share one slot")
+		}
+		for i, in := range ps {
+			v := callOf(in).Args[2]
+			if mi, ok := v.(*ssa.MakeInterface); ok {
+				v = mi.X
+			}
+			base := v
+			for {
+				if sl, ok := base.(*ssa.Slice); ok {
+					base = sl.X
+					continue
+				}
+				break
+			}
+			_, fresh := base.(*ssa.MakeSlice)
+			c.check(fresh, rc, fmt.Sprintf("%s:cached-value-is-a-copy#%d", fnName(f), i), c.pos(in.Pos()), "a private copy is cached", "the caller's buffer ("+desc(v)+") is put into the value cache: the next value read into that buffer changes the cached entry")
+		}
 	}
 	if f := c.mustFn(r, storeT+"ReadValue"); f != nil {
 		for _, in := range sites(f, callTo(storeT+"readValueAt")) {
